@@ -70,7 +70,8 @@ example : (gcStages demoIn { soft := [1] }).enqNow = [] ∧ (gcStages demoIn { s
 need it to be the survivor set of the collection. For `LargeObjectSpace` (src/policy/largeobjectspace.rs) that
 holds in every full-heap collection and for mature objects, but NOT for an untraced young object in a nursery
 collection: `is_live` says `true` and `release` frees the object. Full statement (fails on the real code, witness
-below): `∀ fullHeap ms b traced, b.mark = ms → isLive … = !swept …`. -/
+below) `∀ fullHeap ms b traced, b.mark = ms → isLiveOld … = !swept …`; after the `fix:` commit the full statement is
+`isLive_iff_survives`. -/
 namespace Los
 
 /-- the per-object byte `LOCAL_LOS_MARK_NURSERY_SPEC`: value of `MARK_BIT`, `NURSERY_BIT` -/
@@ -81,8 +82,11 @@ structure Bits where
 
 /-- `initialize_object_metadata(alloc = true)`: `mark_state | NURSERY_BIT` -/
 def init (markState : Bool) : Bits := ⟨markState, true⟩
-/-- `is_live` = `test_mark_bit(object, self.mark_state)` (line 40) -/
-def isLive (markState : Bool) (b : Bits) : Bool := b.mark == markState
+/-- `is_live` on the pinned tree = `test_mark_bit(object, self.mark_state)` (line 40) -/
+def isLiveOld (markState : Bool) (b : Bits) : Bool := b.mark == markState
+/-- `is_live` on this tree (after the `fix:` commit): in a nursery GC a young object is live only once
+tracing has cleared its nursery bit -/
+def isLive (inNurseryGc markState : Bool) (b : Bits) : Bool := b.mark == markState && !(inNurseryGc && b.nursery)
 /-- `prepare(full_heap)`: the mark state flips only in a full-heap collection -/
 def prepare (fullHeap markState : Bool) : Bool := if fullHeap then !markState else markState
 /-- `trace_object`: in a nursery GC only nursery objects are (test-and-)marked; marking clears the nursery bit -/
@@ -96,17 +100,28 @@ def swept (fullHeap markState : Bool) (b : Bits) : Bool := b.nursery || (fullHea
 def after (fullHeap ms : Bool) (b : Bits) (traced : Bool) : Bits :=
   if traced then trace (!fullHeap) (prepare fullHeap ms) b else b
 
-/-- **witness** (decide): a young, unreachable large object in a nursery collection is `live` for the reference and
-finalizable processors and is freed by the same collection. -/
+/-- **witness** (decide), pinned tree: a young, unreachable large object in a nursery collection was `live` for the
+reference and finalizable processors and was freed by the same collection (`gc:los-nursery-weak-dangling`). -/
 theorem young_untraced_live_but_swept :
-    isLive (prepare false true) (after false true (init true) false) = true ∧
+    isLiveOld (prepare false true) (after false true (init true) false) = true ∧
     swept false (prepare false true) (after false true (init true) false) = true := by decide
 
-/-- **partial**: `is_live` is exactly "not freed by this collection" in a full-heap collection, for mature objects,
-and for traced objects — everything but the witness' case. -/
+/-- pinned tree, **partial**: the old `is_live` was exactly "not freed by this collection" in a full-heap collection,
+for mature objects, and for traced objects — everything but the witness' case. -/
 theorem isLive_iff_survives_partial (fullHeap ms : Bool) (b : Bits) (traced : Bool) (hb : b.mark = ms)
     (h : fullHeap = true ∨ b.nursery = false ∨ traced = true) :
-    isLive (prepare fullHeap ms) (after fullHeap ms b traced) = !swept fullHeap (prepare fullHeap ms) (after fullHeap ms b traced) := by
+    isLiveOld (prepare fullHeap ms) (after fullHeap ms b traced) = !swept fullHeap (prepare fullHeap ms) (after fullHeap ms b traced) := by
+  obtain ⟨m, n⟩ := b
+  simp only at hb
+  subst hb
+  cases fullHeap <;> cases m <;> cases n <;> cases traced <;> simp_all [isLiveOld, prepare, after, trace, swept]
+
+/-- **this tree (full)**: `is_live` is exactly "not freed by this collection", in nursery and full-heap collections, for
+young and mature, traced and untraced objects. (The same statement over whole histories of the real treadmill sets is
+`Mmtk.LOS.los_is_live_iff_not_swept` in Props/C36.lean.) -/
+theorem isLive_iff_survives (fullHeap ms : Bool) (b : Bits) (traced : Bool) (hb : b.mark = ms) :
+    isLive (!fullHeap) (prepare fullHeap ms) (after fullHeap ms b traced)
+      = !swept fullHeap (prepare fullHeap ms) (after fullHeap ms b traced) := by
   obtain ⟨m, n⟩ := b
   simp only at hb
   subst hb
